@@ -30,7 +30,6 @@ from immutabledict import immutabledict
 from typing_extensions import TypeAlias
 
 import pytools.lex
-from pytools import memoize_method
 
 
 _imaginary = intern("imaginary")
@@ -118,7 +117,8 @@ class FinalizedTuple(tuple, FinalizedContainer):
 
 
 class FinalizedList(list, FinalizedContainer):
-    @memoize_method
+    # Not memoized: a cached hash in the instance dictionary is pickled along
+    # and is stale in a process with another string hash seed.
     def __hash__(self) -> int:  # type: ignore[override]
         result = hash(type(self).__name__)
         for it in self:
